@@ -19,6 +19,7 @@ type retrySpec struct {
 	Name     string `json:"name"`
 	Max      int    `json:"max_retries"` // -1: unlimited
 	LongWait bool   `json:"long_interval"`
+	Zero     bool   `json:"zero_interval,omitempty"`   // no wait between attempts: only the stop test after the round trip ends the loop
 	Attempts int    `json:"attempts_before_injection"` // complete 500 exchanges before the injection
 	InSleep  bool   `json:"in_sleep"`                  // inject during the sleep after the last of them, else while the next attempt waits for its response
 }
@@ -63,6 +64,9 @@ func runRetry(sp retrySpec, kind string) (o retryObs) {
 	iv := shortInterval
 	if sp.LongWait {
 		iv = longInterval
+	}
+	if sp.Zero {
+		iv = 0
 	}
 	c := req.C().DisableAutoDecode().EnableForceHTTP1().SetDial(dl.dial).SetTimeout(0)
 	var ctx context.Context
